@@ -399,7 +399,7 @@ fn self_test(sh: &Shared) -> Result<(), String> {
 
 pub fn shared(ctx: &Ctx, with_tp: bool) -> Shared {
     std::thread::scope(|s| {
-        let h = if with_tp { Some(s.spawn(|| CL03CommitmentPublicKey::generate::<CL1024Sha256>(None, Some(5)))) } else { None };
+        let h = if with_tp { Some(s.spawn(|| CL03CommitmentPublicKey::generate::<CL1024Sha256>(None, Some(8)))) } else { None };
         let keys = key_pool(ClSuite::CL1024, 1, ctx.tier.pick(3, 6), ctx.seed);
         Shared { keys, tp: h.and_then(|h| h.join().ok()) }
     })
@@ -417,6 +417,13 @@ pub fn fixed_cases(ctx: &Ctx, nmax: usize) -> Vec<Case> {
                 }
                 out.push(Case { key: (k * 7919) as u16, n, hidden_mask: mask, kind, seed: (ctx.seed as u32).wrapping_add(k), small_mask: 0 });
             }
+        }
+    }
+    // larger attribute counts: first / last / alternating positions hidden
+    for n in [6usize, 8] {
+        for (j, mask) in [1u8, 1 << (n - 1), 0b10100101 & (((1u16 << n) - 1) as u8)].into_iter().enumerate() {
+            k += 1;
+            out.push(Case { key: (k * 7919) as u16, n, hidden_mask: mask, kind: [2u8, 0, 2][j], seed: (ctx.seed as u32).wrapping_add(k), small_mask: 0 });
         }
     }
     out
